@@ -27,6 +27,7 @@ type death struct {
 
 type chunkResult struct {
 	ends    []proto.End
+	stalls  []death // runs the child's stall watchdog gave up on: inconclusive
 	deaths  []death
 	trouble string // non-empty: infrastructure problem (timeout, malformed output)
 }
@@ -84,7 +85,11 @@ func runChild(bin string, spec proto.Spec, timeout time.Duration) chunkResult {
 		if d == nil {
 			return res
 		}
-		res.deaths = append(res.deaths, *d)
+		if strings.HasPrefix(d.Class, "stall:") {
+			res.stalls = append(res.stalls, *d)
+		} else {
+			res.deaths = append(res.deaths, *d)
+		}
 		if spec.Replay != "" || next >= spec.To {
 			return res
 		}
@@ -113,6 +118,7 @@ func runChildOnce(bin string, spec proto.Spec, timeout time.Duration) (ends []pr
 	var cfg json.RawMessage
 	var choices []int
 	var stdoutRest strings.Builder
+	stall := ""
 	for sc.Scan() {
 		line := sc.Text()
 		switch {
@@ -132,6 +138,8 @@ func runChildOnce(bin string, spec proto.Spec, timeout time.Duration) (ends []pr
 			}
 			ends = append(ends, e)
 			open = nil
+		case strings.HasPrefix(line, "STALL "):
+			stall = line[6:]
 		case strings.HasPrefix(line, "CONFIG "):
 			cfg = json.RawMessage(line[7:])
 		case strings.HasPrefix(line, "S "):
@@ -162,6 +170,9 @@ func runChildOnce(bin string, spec proto.Spec, timeout time.Duration) (ends []pr
 		}
 		all := stderr.String() + "\n" + stdoutRest.String()
 		class, note := classifyDeath(all, code)
+		if stall != "" && code == 3 {
+			class, note = "stall:"+stall, stall
+		}
 		return ends, &death{Begin: *open, Class: class, Note: note, Exit: code, Config: cfg, Choices: choices}, "", open.Run + 1
 	}
 	if werr != nil {
